@@ -146,7 +146,7 @@ def insertFileG (pol : UInt8) (buf : Bytes) (alignedOffset : Nat) (fBuf : Bytes)
 /-- one iteration of the file loop of the FirmwareVolume case -/
 def placeFileG (pol : UInt8) (buf : Bytes) (fileOffset : Nat) (attrs : Nat) (fileBuf : Bytes) :
     GoM (Bytes × Nat) :=
-  if fileBuf.length = 0 then fatalG "Assemble.Visit: file with an empty buffer" else do
+  if fileBuf.length = 0 then err else do               -- repaired (fixes/C05-assemble-empty-file)
   let alignedOffset := align8G fileOffset
   let alignBase ← getAlignmentG attrs
   if alignBase ≠ 1 then do
@@ -227,6 +227,7 @@ def finishFvG (i : FvInfo) (fbuf : Bytes) (st : St) : GoM (FvInfo × Bytes × St
 def relayoutFvG (i : FvInfo) (buf : Bytes) (files : List File) (st : St) : GoM (FvInfo × Bytes × St) := do
   if i.length < buf.length then err else do
   if i.blocks.isEmpty then err else do                  -- fixes/C05-assemble-empty-blockmap.diff
+  if i.dataOffset > buf.length then err else do         -- fixes/C05-assemble-dataoffset.diff
   let hdr ← (if i.dataOffset ≠ buf.length then sliceToG "Assemble.Visit: fBuf[:f.DataOffset]" buf i.dataOffset
              else pure buf : GoM Bytes)
   let fbuf ← placeFilesG st.pol (files.map (fun f => (f.info.attrs, f.buf))) hdr i.dataOffset
